@@ -44,4 +44,4 @@ def run(tier, seed, only=None):
         "untouched (F4); the unwind path reaches the caller, never std::terminate (F5).  Value-type constructor throws are "
         "outside the property's fault model.  OWN-E / FE: the same on every allocating ContiguousElement special member "
         "(construction from references, copy / allocator-extended construction, copy / move assignment).",
-        cfgs=cfgs, min_ob=800, flags=(), tag="+eh", elements="rule_elem", elements_eh=True)
+        cfgs=cfgs, min_ob=800, flags=(), tag="+eh", elements="rule_elem", elements_eh=True, level="fault_enumeration")
